@@ -282,4 +282,90 @@ def rule_e(ctx: Ctx) -> None:
     ctx.explain('C18.e: for every `if k not in self.<set>:` block that adds k to the same set, no statement containing a call follows the add inside the block.')
 
 
-RULES = [rule_a, rule_b, rule_c, rule_d, rule_e]
+MAPS_MUTATORS = ('clear', 'load', 'update', 'reset', 'pop', 'remove', 'register', 'unregister', 'add', 'setdefault', 'copy_to')
+
+
+def rule_f(ctx: Ctx) -> None:
+    """Threads race to trigger the build through XMLSchemaBase.build(); the whole procedure - check, clear, load, build, publish - lives in
+    XsdGlobals.build() under `_build_lock`.  The entry point therefore does nothing to the maps but delegate: a reset 'of an interrupted
+    build' made by the entry point runs outside the lock and wipes the maps under the thread that is building."""
+    rule = 'C18.f'
+    f = ctx.idx.method('xmlschema.validators.schemas.XMLSchemaBase', 'build')
+    ctx.analysed(f.qualname)
+    cs = list(calls(f.node))
+    delegates = [c for c in cs if text(c.func) == 'self.maps.build']
+    other = [c for c in cs if isinstance(c.func, ast.Attribute) and text(c.func.value).startswith('self.maps') and c.func.attr != 'build']
+    writes = [x for x in ast.walk(f.node) if isinstance(x, (ast.Assign, ast.AugAssign)) and any(text(t).startswith('self.maps') for t in (x.targets if isinstance(x, ast.Assign) else [x.target]))]
+    ok = len(delegates) == 1 and not other and not writes
+    ctx.ob(rule, 'XMLSchemaBase.build only delegates to XsdGlobals.build (which takes the build lock)', f.loc(other[0]) if other else f.loc(), ok,
+           '' if ok else f'`{text((other or writes)[0])[:60]}` runs before the lock is taken: a thread that finds the maps half built by another thread resets them under the builder, '
+           'which then fails with KeyError / publishes maps that lost most globals', key='XMLSchemaBase.build|delegates-only')
+    # the locked procedure itself is the only caller of the reset (besides the loader entry points that run before any validation)
+    n = 0
+    for g_ in ctx.idx.iter_functions('validators'):
+        if isinstance(g_.node, ast.Lambda) or g_.qualname == f.qualname:
+            continue
+        for c in calls(g_.node):
+            if text(c.func) in ('self.maps.clear', 'schema.maps.clear') and g_.cls is not None and g_.cls.name != 'XsdGlobals':
+                n += 1
+                ctx.ob(rule, f'{g_.qualname.split(".", 2)[-1]}: `{text(c)}` is not a reset of the shared maps outside the build lock', g_.loc(c), False,
+                       'the global maps are reset by a method of a schema / component, outside XsdGlobals.build', key=f'{g_.qualname}|maps-clear')
+    ctx.explain('C18.f: XMLSchemaBase.build consists of the single delegation `self.maps.build()`; no validator method outside XsdGlobals resets the maps.')
+
+
+def rule_g(ctx: Ctx) -> None:
+    """Containers on schema components that validation itself extends (the C10.a inventory: set.add / dict stores made while validating) are
+    read by other threads at the same time.  A single membership test or lookup is atomic under the GIL; a Python-level loop over the live
+    container is not - a concurrent add makes it raise 'Set changed size during iteration'.  Such loops go over a snapshot."""
+    rule = 'C18.g'
+    from .c10 import inventory
+    grown = {}
+    for w in inventory(ctx):
+        if w.kind in ('mutcall', 'setitem') and w.attr and w.owner_class not in ('module',):
+            if w.kind == 'mutcall' and not any(w.target.endswith('.' + m_) for m_ in ('add', 'update', 'append', 'extend', 'setdefault', 'insert')):
+                continue
+            # the container is the attribute the mutator is applied to (the inventory names the first attribute of the access path)
+            tgt = w.target.split('[')[0]
+            parts = tgt.split('.')
+            cont = parts[-2] if w.kind == 'mutcall' and len(parts) >= 2 else parts[-1]
+            if cont in ('self', 'cls') or not cont.isidentifier():
+                continue
+            grown.setdefault(cont, w)
+    ctx.floor(rule, 'containers extended at validation time', len(grown), 2)
+    n = 0
+    SNAP = ('tuple', 'list', 'sorted', 'frozenset', 'set', 'dict')
+    for f in ctx.idx.iter_functions('validators'):
+        if isinstance(f.node, ast.Lambda) or f.name.startswith(('_parse', 'build', '__init__', '__copy__', '__repr__', '__setstate__', '__getstate__')):
+            continue
+        for x in ast.walk(f.node):
+            its = []
+            if isinstance(x, ast.For):
+                if getattr(x, '_snapshot', None):
+                    continue        # indexed normal form: `for v in tuple(E)` is stored as `for v in E` with the snapshot remembered on the node
+                its.append(x.iter)
+            elif isinstance(x, ast.comprehension):
+                its.append(x.iter)
+            for it in its:
+                base = it
+                if isinstance(base, ast.Call) and isinstance(base.func, ast.Attribute) and base.func.attr in ('items', 'values', 'keys') and not base.args:
+                    base = base.func.value
+                if not (isinstance(base, ast.Attribute) and base.attr in grown and isinstance(base.value, ast.Name) and base.value.id == 'self'):
+                    continue
+                # only the class that owns the grown attribute (or its subclasses)
+                w = grown[base.attr]
+                if f.cls is None or w.owner_class.split('.')[-1] not in [k_.name for k_ in f.cls.mro()]:
+                    continue
+                n += 1
+                ctx.ob(rule, f'{f.qualname.split(".", 2)[-1]}: the loop over `{text(it)}` (extended by {w.func.qualname.split(".")[-1]} while validating) runs on a snapshot', f.loc(x if isinstance(x, ast.For) else it), False,
+                       f'`{text(it)}` is iterated live: a thread that validates an xsi:type with the same schema adds to it during the loop and this thread raises RuntimeError '
+                       '"Set changed size during iteration" (wrap the iterable in tuple(…))', key=f'{f.qualname}|live-iteration|{base.attr}')
+    # the snapshot idiom is present where the inventory says it is needed (positive instance: keeps the rule from passing vacuously)
+    cf = ctx.idx.method('xmlschema.validators.elements.XsdElement', 'collect_key_fields')
+    snaps = [x for x in ast.walk(cf.node) if isinstance(x, ast.For) and getattr(x, '_snapshot', None) and text(x.iter) == 'self.selected_by']
+    ctx.ob(rule, 'XsdElement.collect_key_fields iterates a snapshot of self.selected_by', cf.loc(snaps[0]) if snaps else cf.loc(), bool(snaps) or 'selected_by' not in grown,
+           '' if snaps else 'self.selected_by is extended at validation time (XsdIdentity.update_elements) and iterated live here', key='collect_key_fields|snapshot')
+    ctx.explain('C18.g: for every attribute of a schema component that the validation-time inventory shows growing (add/update/store), no `for`/comprehension in the owning '
+                'class iterates `self.<attr>` (or its items()/values()) directly; tuple()/list()/sorted() snapshots are accepted.')
+
+
+RULES = [rule_a, rule_b, rule_c, rule_d, rule_e, rule_f, rule_g]
